@@ -525,6 +525,10 @@ pub struct Successor {
     pub ends_turn: bool,
 }
 
+thread_local! {
+    static C14_SCRATCH: std::cell::RefCell<Option<GameState>> = std::cell::RefCell::new(None);
+}
+
 /// Evaluates every enabled oracle on `node` and on each of its outgoing transitions; returns the successors
 /// reached by offered actions (`valid_actions()`).
 pub fn visit(ctx: &mut Ctx, node: &Node) -> Vec<Successor> {
@@ -748,6 +752,29 @@ pub fn visit(ctx: &mut Ctx, node: &Node) -> Vec<Successor> {
             if k > 0 {
                 ctx.stats.add("c14_midturn_states", 1);
             }
+            // the same state obtained by overwriting, in place, the state this worker visited before (`Clone::clone_from`:
+            // usually another step sequence of the same turn, sometimes of another turn or root) must report the same
+            // boards: an implementation that reuses the destination's buffers must not keep any of its contents
+            let mut scratch = C14_SCRATCH.with(|c| c.borrow_mut().take());
+            match scratch.as_mut() {
+                Some(sc) => sc.clone_from(gs),
+                None => scratch = Some(gs.clone()),
+            }
+            let sc = scratch.unwrap();
+            ctx.stats.add("c14_states_also_read_from_a_scratch_state_overwritten_with_clone_from", 1);
+            for i in 0..=k {
+                ctx.query = "piece_board_for_step";
+                let b = raw(sc.piece_board_for_step(i));
+                ctx.query = "";
+                if b != node.snaps[i] {
+                    ctx.fail("C14: after `scratch.clone_from(&state)` (scratch = the state visited before), scratch.piece_board_for_step(i) is not the board after i steps of this turn", format!("i={} {:?}", i, b), format!("{:?}", node.snaps[i]));
+                    break;
+                }
+            }
+            if sc != *gs {
+                ctx.fail("C14: a state overwritten with clone_from does not compare equal to its source", "!=".into(), "==".into());
+            }
+            C14_SCRATCH.with(|c| *c.borrow_mut() = Some(sc));
         }
     }
 
